@@ -16,7 +16,7 @@ TECHNIQUE = (
 )
 LEVEL_TEXT = (
     "Random keys, addresses, address type, extended frame format, every data TPCI coding, 48 bit sequence numbers, every "
-    "constructible SCF, APDU lengths 0..240 (each length at least once per algorithm) for both algorithms; exploration (sampled). "
+    "constructible SCF, APDU lengths 0..240 (each length at least once per algorithm) for both algorithms, plus the producers driven directly with lengths a frame can not carry (241..65536, both algorithms; a refusal is recorded); exploration (sampled). "
     "The reference is re-validated on every run against the AN158 Annex A frame and the recorded ETS frame of the repository."
 )
 LEVEL_NOTE = (
@@ -350,6 +350,79 @@ def _rotation_spec(rng, i):
             "keys": [[rng.randbytes(16).hex() for _ in gas] for _ in range(2 + (i % 3 == 2))], "seed": rng.randrange(1 << 30)}
 
 
+# ---------------------------------------------------------------------------
+# "for every input": the producers driven directly, with payloads longer than a cEMI frame can carry
+
+LONG_LENGTHS = (241, 252, 253, 254, 255, 256, 257, 258, 300, 511, 512, 513, 1000, 4096, 65277, 65278, 65279, 65534, 65535, 65536)
+
+
+def _long_case(ctx, rng, raw_scf, length):
+    from xknx.secure.security_primitives import calculate_message_authentication_code_cbc
+
+    alg = "enc" if ref.scf_algorithm(raw_scf) == ref.ALG_ENC else "auth"
+    key, apdu = rng.randbytes(16), rng.randbytes(length)
+    sa, da = rng.randbytes(2), rng.randbytes(2)
+    at, eff, seq = rng.randrange(2), rng.choice((0, 0, 4)), rng.randrange(1 << 48)
+    t = rng.choice((tpci.TDataGroup(), tpci.TDataIndividual(), tpci.TDataTagGroup()))
+    scf = SecurityControlField.from_knx(raw_scf)
+    ctx.ev()
+    ctx.count(f"long_inputs_{alg}")
+    wit = {"scf": raw_scf, "apdu_length": length, "key": key, "sa": sa, "da": da, "at": at, "eff": eff, "seq": seq, "tpci_octet": t.to_knx(),
+           "apdu_head": apdu[:16]}
+    assoc_len = 1 + (length if alg == "auth" else 0)
+    defined = assoc_len <= ref.MAX_ASSOCIATED_DATA and (alg == "auth" or length <= ref.MAX_PAYLOAD)
+    try:
+        got = bytes(SecureData.init_from_plain_apdu(key=key, apdu=apdu, scf=scf, sequence_number=seq, address_fields_raw=sa + da,
+                                                    address_type=CEMIAddressType(at), frame_format=CEMIFrameFormat(eff), tpci=t).to_knx())
+    except Exception as exc:  # noqa: BLE001 - refusing a length no frame can carry is fine: recorded
+        ctx.count(f"long_input_refused_{alg}_{type(exc).__name__}")
+        ctx.distinct(("long", alg, length, "refused"))
+        got = None
+    if not defined:
+        ctx.count("long_inputs_beyond_defined_length_encoding")  # recorded only
+        return
+    expected = ref.asdu(key, apdu, raw_scf, seq, sa, da, at, eff, t.to_knx())
+    if got is not None:
+        ctx.distinct(("long", alg, length, got == expected))
+        if got == expected:
+            ctx.count("long_inputs_equal")
+            ctx.count(f"long_inputs_equal_{alg}")
+            if assoc_len >= 256:
+                ctx.count("long_inputs_equal_with_associated_data_of_256_or_more")
+        else:
+            part = "mac" if got[:-4] == expected[:-4] else "ciphertext"
+            ctx.violation(f"ccm-{part}-differs-{alg}-for-{'associated-data' if alg == 'auth' else 'payload'}-of-256-octets-or-more"
+                          if length >= 255 else f"ccm-{part}-differs-{alg}-tpci0",
+                          dict(wit, xknx_tail=got[-8:], reference_tail=expected[-8:]),
+                          f"{alg}, APDU of {length} octets: xknx MAC/ciphertext differ from the reference (…{got[-4:].hex()} != …{expected[-4:].hex()})")
+        # the receiving side on the reference's output
+        try:
+            plain = SecureData.from_knx(expected).get_plain_apdu(key=key, scf=scf, address_fields_raw=sa + da, address_type=CEMIAddressType(at),
+                                                                 frame_format=CEMIFrameFormat(eff), tpci=t)
+            if bytes(plain) == apdu:
+                ctx.count("long_reference_frames_accepted")
+        except DataSecureError:
+            ctx.violation(f"reference-frame-rejected-{alg}-long-input", wit, f"reference output for an APDU of {length} octets fails MAC verification")
+        except Exception as exc:  # noqa: BLE001
+            ctx.count(f"long_reference_frame_refused_{type(exc).__name__}")
+    # the MAC primitive itself, whatever the layers above refuse
+    ad = rng.randbytes(rng.choice((255, 256, 257, 512, 4095, length % 60000 + 1)))
+    pay = rng.randbytes(rng.choice((0, 1, 16, 300)))
+    b0 = rng.randbytes(16)
+    if len(ad) <= ref.MAX_ASSOCIATED_DATA:
+        ctx.ev()
+        try:
+            mac = calculate_message_authentication_code_cbc(key, additional_data=ad, payload=pay, block_0=b0)
+        except Exception as exc:  # noqa: BLE001
+            ctx.count(f"mac_primitive_refused_{type(exc).__name__}")
+        else:
+            want = ref.cbc_mac(key, b0 + len(ad).to_bytes(2, "big") + ad + pay)
+            if ctx.check(bytes(mac) == want, "cbc-mac-primitive-differs-for-associated-data-of-256-octets-or-more",
+                         {"key": key, "block_0": b0, "associated_data_length": len(ad), "payload_length": len(pay), "xknx": bytes(mac), "reference": want},
+                         f"calculate_message_authentication_code_cbc differs from the reference for {len(ad)} octets of associated data"):
+                ctx.count("mac_primitive_equal_long_associated_data")
+
+
 def _spec(rng, length, alg, scfs, tp):
     tname, t = tp
     choices = [raw for raw, _ in scfs if ref.scf_algorithm(raw) == alg]
@@ -410,6 +483,16 @@ def run(ctx):
                 _reuse_case(ctx, rng)
             else:
                 rng.random()
+    for rep in range(ctx.scale(2, 40)):
+        for li, length in enumerate(LONG_LENGTHS):
+            for raw_scf in (0x00, 0x10, rng.choice([r for r, _ in scfs])):
+                idx += 1
+                if length > 5000 and (rep > 1 or (ctx.quick and raw_scf not in (0x00, 0x10))):
+                    continue
+                if ctx.mine((idx * 0x9E3779B1) >> 12):
+                    _long_case(ctx, rng, raw_scf, length)
+    ctx.require("long_inputs_auth", "long_inputs_enc", "long_inputs_equal_auth", "long_inputs_equal_with_associated_data_of_256_or_more",
+                "mac_primitive_equal_long_associated_data")
     ctx.require("reused_cemi_data_equal", "rotation_cases", "restarts_with_rotated_key_file",
                 "rotation_frames_after_restart_equal_reference_for_new_key")
     for i in range(ctx.scale(8, 320)):
